@@ -148,7 +148,7 @@ PROPS = {
         assumptions=['PRNG variant: n, a, b range over the grid {0,1,2,3,95,255,256,257,65535,65536,65537,2^32,MAX-1,MAX}, not all of usize']),
     'C17': dict(
         title='The simulated stack and memo mirror the reference machine after every opcode',
-        verus=['core'],
+        verus=['core', 'mutv'],
         level='proof',
         technique='Verus contracts: process_stack_ops arm-by-arm simulation relation against a reference pickle machine (inductive step of the invariant)',
         claim='Unbounded proof of the inductive step: from any simulated state related to a reference state, every process_stack_ops arm '
@@ -161,8 +161,8 @@ PROPS = {
 }
 
 _CORE_ASSUME = [
-    'emit_int / emit_string / emit_bytes / emit_global / mutate_* / post_process_emission / get_random_module are external_body in the Verus unit with '
-    'the contract stated there (abstract effect only); post_process_emission is the identity in safe mode (Kani harnesses u8_typeconfusion_*, u8_not_applicable_*)',
+    'mutate_int/float/string/bytes/memo_index (dyn dispatch over registered mutators), post_process_emission, get_random_module, create_snapshot are external_body in the Verus unit with '
+    'the contract stated there (length / printable-ASCII preservation of the string mutators is proved per mutator in unit mutv); post_process_emission is the identity in safe mode (Kani harnesses u8_typeconfusion_*, u8_not_applicable_*)',
     'byte <-> trace link: each appended chunk starts with the opcode byte recorded in the trace (proved for the arms verified in Verus); that the whole '
     'chunk decodes to exactly that opcode and that concatenated chunks decode to the concatenated trace is not machine-checked here',
     'registered mutators are the seven built-in kinds, created with unsafe_mode equal to the generator flag (as the CLI and Python bindings do)',
@@ -184,6 +184,19 @@ PROPS.update({
         technique='Verus contracts: memo emitter arms (PUT index == memo size and fresh, GET index in key set for any mutated index), guards, process_stack_ops memo arms, contiguity invariant',
         claim='Unbounded proof (any memo size, any mutator outcome for the index) that GET-family indices are defined, PUT-family indices are fresh, and no PUT executes on MARK/empty stack.',
         note=_NOTE, assumptions=_CORE_ASSUME),
+    'C04': dict(
+        title='Every output is a well-formed opcode stream', verus=['core', 'mutv'], kani_quick=['u7_as_u8_all_kinds'], kani_thorough=U8_THOROUGH, level='proof',
+        technique='Verus contracts: every emitter (all emit_and_process arms, emit_int/emit_string/emit_bytes/emit_global, emit_opcode, emit_proto, the FRAME patch) appends exactly one opcode whose bytes satisfy a hand-written wire-format predicate per argument class; Kani for the post-emission rewrite',
+        claim='Safe mode: unbounded proof that each emission is exactly one well-formed opcode under the CPython table (known byte, complete argument, length prefix == payload length, '
+              'EXT codes >= 1 under the signed reader, memo index non-negative) and that the output is header + these chunks + collapse tail + one final STOP. '
+              'Text arguments (decimal / float / quoted / newline-terminated lines) rest on assumed facts about format! and the escaping chain, stated as shim specs. '
+              'Unsafe mode: the type-confusion rewrite replaces a whole emission by one complete value-pushing opcode (Kani, bounded; thorough tier).',
+        note=_NOTE + ' text_ok(class, bytes) is an uninterpreted predicate established only by the assumed specs of the formatting shims (format!("{}\\n"), the STRING escape chain, '
+             'f64 Display); that each chunk decodes to exactly its opcode and that concatenated chunks decode to the concatenated trace is the (unproved) framing argument. '
+             'Unsafe-mode composition (rewrites happen before the FRAME patch, memo-index mutations stay encodable) is by inspection.',
+        assumptions=_CORE_ASSUME + ['format!/escape facts: decimal text of an integer parses back; f64 Display is accepted by Python float(); the STRING escape chain yields a valid quoted literal; '
+                                    'a printable-ASCII line contains no inner newline (text_ok is established only through these assumed specs)',
+                                    'unsafe mode: only the rewrite itself is machine-checked (Kani, bounded)']),
     'C05': dict(
         title='Only opcodes of the requested protocol, right header', verus=['core'], kani_quick=U7, level='proof',
         technique='Verus contracts: candidate set within the protocol table, emitted opcode in the chosen family and protocol, collapse-phase opcodes in protocol, PROTO header clause of generate_internal',
@@ -226,14 +239,13 @@ PROPS.update({
         claim='Proof that no opcode recorded in the trace is EXT*/NEXT_BUFFER/READONLY_BUFFER unless the corresponding flag is set.',
         note=_NOTE, assumptions=_CORE_ASSUME),
     'C11': dict(
-        title='Opcode-count knobs bound the program size', verus=['core'], level='proof',
+        title='Opcode-count knobs bound the program size', verus=['core', 'mutv'], level='proof',
         technique='Verus contract on generate_internal: loop runs exactly T times, one opcode per iteration, tail <= 2T+1',
         claim='Proof that the body has exactly T opcodes with min <= T < max (T = min when max <= min) and the collapse tail has at most 2T+1 opcodes.',
         note=_NOTE, assumptions=_CORE_ASSUME),
 })
 
 NOT_APPLICABLE = {
-    'C04': 'check under construction in this session',
     'C13': 'front ends (main.rs clap/rayon/filesystem, bash wrapper, PyO3/Python) have no function boundary a contract can be put on and no deductive verifier here accepts them (DESIGN.md section 7)',
     'C14': 'heap reachability through Rc<RefCell<..>> cycles: no contract within reach of Verus (cell model has no heap) or Kani (recursive drop glue does not terminate in CBMC) can express or decide it (DESIGN.md section 7)',
 }
